@@ -35,8 +35,13 @@ if not hasattr(orch_core, "t4_filter"):
 EXC_TYPES = [RuntimeError, KeyError, OSError]
 
 
+# target ids chosen so that the canonical order of the meta-filter (order of the joined string "kind:id:attr") differs from
+# the field-wise tuple order: "node:a10:weight" < "node:a1:weight" < "node:a:weight"
+_IDS = {1: "a10", 2: "a1", 3: "a"}
+
+
 def D(i):
-    return ProposedDelta(target_kind="node", target_id="n%d" % i, attr="weight", delta=0.25 * i, op_idx=None, idx=i)
+    return ProposedDelta(target_kind="node", target_id=_IDS[i], attr="weight", delta=0.25 * i, op_idx=None, idx=i)
 
 
 def dkey(d):
@@ -99,7 +104,9 @@ def turn_alphabet(max_n, with_kill):
     return out
 
 
-NS_MENU = {"default": ["t2:semantic"], "none": []}  # the validator admits only t2:semantic
+# the validator admits only t2:semantic; "raw3" is an unvalidated config (apply_changes itself accepts any list) whose
+# first namespace was never created in the manager
+NS_MENU = {"default": ["t2:semantic"], "none": [], "raw3": ["zzz:never-created", "t2:semantic", "other:ns"]}
 
 
 def settings_menu(entry, thorough):
@@ -112,6 +119,10 @@ def settings_menu(entry, thorough):
                 for v in vers:
                     for sh in shapes:
                         yield {"n": n, "bust": bust, "ns": ns, "ver": v, "shape": sh, "ids": [1, 1]}
+    if entry == "direct":
+        for bust in ("on-apply", "none"):
+            for sh in shapes:
+                yield {"n": 1, "bust": bust, "ns": "raw3", "ver": "0", "shape": sh, "ids": [1, 1]}
     # turn ids are the caller's: start at a cadence turn and skip (2, 5, 8 ...): a cadence rule that keeps memory of the
     # last snapshot instead of using turn % n shows up here
     for n in (2, 3):
@@ -120,9 +131,13 @@ def settings_menu(entry, thorough):
 
 
 def _cfg_for(st, snap_dir, enabled=True):
+    ns = list(NS_MENU[st["ns"]])
     over = {"t4": {"enabled": enabled, "snapshot_every_n_turns": st["n"], "cache_bust_mode": st["bust"],
-                   "cache": {"namespaces": list(NS_MENU[st["ns"]])}}}
-    return W.make_cfg(over, snap_dir=snap_dir)
+                   "cache": {"namespaces": ns if st["ns"] != "raw3" else ["t2:semantic"]}}}
+    cfg = W.make_cfg(over, snap_dir=snap_dir)
+    if st["ns"] == "raw3":
+        cfg["t4"]["cache"]["namespaces"] = ns   # not validator-accepted: direct apply_changes entry only
+    return cfg
 
 
 def _seed_cache(state):
